@@ -17,7 +17,8 @@
    own process ("releasing another thread's lock is outside the contract").        *)
 From Coq Require Import List Arith NArith Bool.
 Import ListNotations.
-Require Import Aiuti.FLock Aiuti.FLockInv Aiuti.FLockTL Aiuti.FLockFD Aiuti.FLockMutex Aiuti.FLockContract.
+Require Import Aiuti.FLock Aiuti.FLockInv Aiuti.FLockTL Aiuti.FLockFD Aiuti.FLockMutex Aiuti.FLockContract Aiuti.FLockMon.
+Require Aiuti.Case_C02.
 
 (* At most one thread is inside, whatever the configuration, the fault script and
    the schedule — including schedules with crashes (used again by C13).  Threads of
@@ -67,6 +68,18 @@ Theorem mutex_for_contract_respecting_programs :
 Proof. exact mutex_static_lemma. Qed.
 Print Assumptions mutex_for_contract_respecting_programs.
 
+(* The trace monitor used on implementation traces (Case_C02.ok: at every entry exactly
+   one thread is inside and its object is locked, at every exit nobody is left inside)
+   accepts every trace the model can produce within the contract, for ALL configurations,
+   fault scripts, programs and controller traces: on any case where the implementation's
+   occupancy log equals the model's, the monitor cannot raise a false alarm. *)
+Theorem monitor_complete :
+  forall cfg fl progs trace r0 o0 f0 e0 k0,
+    let '(g, rs, oc, fin, ec, vi) := Case_C02.model_trace (Case_C02.CSched cfg fl progs trace r0 o0 f0 e0 k0) in
+    vi = false -> Case_C02.ok (Case_C02.CSched cfg fl progs trace rs oc fin ec 0) = true.
+Proof. exact monitor_complete_lemma. Qed.
+Print Assumptions monitor_complete.
+
 (* The contract hypothesis is needed (and so is not vacuous): if a thread that holds
    nothing releases a plain (non-reentrant) lock that another thread holds, two
    threads end up inside. *)
@@ -100,6 +113,10 @@ Definition ex_prefix :=
   [EStep 0; EStep 0; EStep 0; EStep 0; EStep 1; EStep 1; EStep 1; EStep 1; EStep 1; EAdv 2;
    EStep 1; EStep 1; EStep 1; EStep 1; EAdv 4; EStep 1; EStep 1; EStep 1; EStep 1; EAdv 6;
    EStep 1; EStep 1; EStep 1; EStep 1; EStep 1].
+Example monitor_example_rejects :
+  Case_C02.ok (Case_C02.CSched [] [] [] [] [] [(0, true, 1, true); (1, true, 2, true)] [] 0 0) = false /\
+  Case_C02.ok (Case_C02.CSched [] [] [] [] [] [(0, true, 1, true); (0, false, 0, true); (1, true, 1, true)] [] 0 0) = true.
+Proof. vm_compute. split; reflexivity. Qed.
 Example mutex_example_contended :
   let s := run ex_cfg ex_prefix in
   viol s = false /\ inside_b s 0 = true /\ inside_b s 1 = false /\ t_res (thr s 1) = [RTimeout].
